@@ -39,6 +39,7 @@ def run(rep: core.Report):
     _r08e(rep)
     _r08f(rep)
     _r08g(rep)
+    _r08h(rep)
     tu = cast.load(DYN)
     ex = celem.ElemExec(tu, where=DYN)
     i, j, n = sp.symbols("i j num_patom", integer=True)
@@ -464,6 +465,81 @@ def run(rep: core.Report):
     _run_main(rep)
 
 
+def _r08h(rep):
+    """What is compared with the zone-centre tolerance is a length (degree 1 in q), in Python as in the kernels."""
+    rep.rule("R08h", "zone-centre switch: the quantity compared with Q_DIRECTION_TOLERANCE is homogeneous of degree 1 in the q-point / the direction (a Cartesian length: norm, or sqrt of a sum of squares), as in the compiled drivers, which compare sqrt(q.q) with the same 1e-5; a squared length compared with the un-squared tolerance widens the zone to |q| < 3e-3 and the Python route returns the uncorrected matrix where the kernels and the documentation apply the correction", 2)
+
+    def degree(e, env, depth=0):
+        """degree in q of a Python expression; None when it cannot be told"""
+        if isinstance(e, ast.Name):
+            if e.id in env:
+                v = env[e.id]
+                return v if not isinstance(v, ast.AST) else (degree(v, env, depth + 1) if depth < 6 else None)
+            return 0
+        if isinstance(e, ast.Constant):
+            return 0
+        if isinstance(e, ast.Attribute):
+            return 0 if core.src(e.value) in ("self", "np") or e.attr in ("T",) and degree(e.value, env, depth) == 0 else (degree(e.value, env, depth) if e.attr == "T" else 0)
+        if isinstance(e, ast.IfExp):
+            a, b = degree(e.body, env, depth), degree(e.orelse, env, depth)
+            return a if a == b else None
+        if isinstance(e, ast.UnaryOp):
+            return degree(e.operand, env, depth)
+        if isinstance(e, ast.BinOp):
+            a, b = degree(e.left, env, depth), degree(e.right, env, depth)
+            if a is None or b is None:
+                return None
+            if isinstance(e.op, (ast.Mult, ast.MatMult)):
+                return a + b
+            if isinstance(e.op, ast.Div):
+                return a - b
+            if isinstance(e.op, (ast.Add, ast.Sub)):
+                return a if a == b else None
+            if isinstance(e.op, ast.Pow) and isinstance(e.right, ast.Constant) and isinstance(e.right.value, (int, float)):
+                return a * e.right.value
+            return None
+        if isinstance(e, ast.Subscript):
+            return degree(e.value, env, depth)
+        if isinstance(e, ast.Call):
+            f = core.src(e.func)
+            if f in ("np.linalg.norm", "abs", "np.abs", "np.array", "np.asarray", "float") and e.args:
+                return degree(e.args[0], env, depth)
+            if f in ("np.dot", "np.vdot", "np.inner") and len(e.args) == 2:
+                a, b = degree(e.args[0], env, depth), degree(e.args[1], env, depth)
+                return None if a is None or b is None else a + b
+            if f in ("np.sqrt", "math.sqrt") and e.args:
+                a = degree(e.args[0], env, depth)
+                return None if a is None else a / 2
+            if f in ("np.sum", "sum") and e.args:
+                return degree(e.args[0], env, depth)
+            if isinstance(e.func, ast.Attribute) and e.func.attr == "sum":
+                return degree(e.func.value, env, depth)
+            ds = [degree(a_, env, depth) for a_ in e.args] + [degree(k_.value, env, depth) for k_ in e.keywords if k_.arg != "dtype" and k_.arg != "order"]
+            if isinstance(e.func, ast.Attribute) and not core.src(e.func.value).startswith(("np", "math")):
+                ds.append(degree(e.func.value, env, depth))
+            return 0 if all(d_ == 0 for d_ in ds) else None
+        return None
+
+    n = 0
+    for rel, qn, qnames in ((PYDM, "DynamicalMatrixNAC.run", ("q", "q_direction")), ("phonopy/harmonic/derivative_dynmat.py", "DerivativeOfDynamicalMatrix._run_c", ("q", "q_direction"))):
+        fn = core.find_def(rel, qn)
+        env = {a.arg: 1 for a in fn.args.args if a.arg in qnames}
+        for st in ast.walk(fn):
+            if isinstance(st, ast.Assign) and len(st.targets) == 1 and isinstance(st.targets[0], ast.Name) and st.targets[0].id not in env:
+                env[st.targets[0].id] = st.value
+        for c in ast.walk(fn):
+            if isinstance(c, ast.Compare) and len(c.ops) == 1 and any("Q_DIRECTION_TOLERANCE" in core.src(x) for x in (c.left, c.comparators[0])):
+                other = c.comparators[0] if "Q_DIRECTION_TOLERANCE" in core.src(c.left) else c.left
+                # a name assigned on both arms of a test (q_norm): all assignments must agree
+                vals = [st.value for st in ast.walk(fn) if isinstance(st, ast.Assign) and isinstance(other, ast.Name) and isinstance(st.targets[0], ast.Name) and st.targets[0].id == other.id] if isinstance(other, ast.Name) else [other]
+                degs = {degree(v, env) for v in (vals or [other])}
+                n += 1
+                rep.instance("R08h", rel, qn, f"{core.norm(core.src(c), 70)} : degree {sorted(map(str, degs))} in q", degs == {1},
+                             f"'{core.norm(core.src(c), 70)}' compares a quantity of degree {sorted(map(str, degs))} in q with the tolerance that the kernels apply to the length |q|: for a squared length the switch happens at |q| < sqrt(1e-5) ~ 3e-3 instead of 1e-5, and a direction or q-point of that size gets no non-analytical term", line=c.lineno)
+    if n < 2:
+        raise AnalysisError(f"R08h: only {n} comparisons with Q_DIRECTION_TOLERANCE found in the Python routes")
+
+
 def _r08g(rep):
     """The q = 0 on-site term of the Gonze-Lee method is Hermitian in its Cartesian indices."""
     rep.rule("R08g", "Gonze-Lee q = 0 term: dd_q0[i][a][b] = 1/2 (sum_j T[i,a,j,b] + conj(sum_j T[i,b,j,a])) with T the Born-dressed reciprocal sum at q = 0 (closed form of all 9 x 2 cells by element-wise symbolic execution of the loops after multiply_borns): the 3x3 block of every atom is Hermitian, so what is subtracted when the short-range force constants are built (and symmetrised there) is what is added back at every q", 18)
@@ -541,6 +617,7 @@ def selftest():
     b = lambda name, file, old, new, rule, expect="", **kw: V.append(dict(name=name, kind="break", file=file, old=old, new=new, rule=rule, expect=expect, **kw))
     n = lambda name, file, old, new, **kw: V.append(dict(name=name, kind="neutral", file=file, old=old, new=new, **kw))
     V.append(dict(name="default Lambda from the default radius", kind="break", rule="R08f", expect="_set_nac_params", file=PYDM, old="            exp_cutoff = 1e-10\n            GeG = self._G_cutoff**2 * np.trace(self._dielectric) / 3", new="            exp_cutoff = 1e-10\n            G_cutoff = (3 * self._num_G_points / (4 * np.pi) / self._pcell.volume) ** (1.0 / 3)\n            GeG = G_cutoff**2 * np.trace(self._dielectric) / 3"))
+    b("zone-centre test on the squared length", PYDM, "            q_norm = np.linalg.norm(self._rec_lat @ q)\n", "            q_norm = (self._rec_lat @ q) @ (self._rec_lat @ q)\n", "R08h", "DynamicalMatrixNAC.run")
     b("q = 0 term: imaginary parts added instead of subtracted in the Cartesian symmetrisation", DYN, "                dd_q0[adrs][1] -= dd_q0[adrsT][1];", "                dd_q0[adrs][1] += dd_q0[adrsT][1];", "R08g", "dym_get_recip_dipole_dipole_q0")
     b("zone-centre factor normalised by |n| instead of n.eps.n", DYN, "                nac_factor / n / get_dielectric_part(q_dir_cart, dielectric),", "                nac_factor / n / sqrt(get_dielectric_part(q_dir_cart, dielectric)),", "R08a", "degree 0")
     b("charge sum contracts the other Born axis", DYN, "                q_born[i][j] += q_cart[k] * born[i][k][j];", "                q_born[i][j] += q_cart[k] * born[i][j][k];", "R08a", "closed form")
